@@ -178,6 +178,10 @@ class ParentProjectRepo(ModelProjectRepo):
     _COMPONENTS_VERSIONS_LOCATIONS = {"lib": "DEPENDS"}
 
 
+class ParentProjectRepo2(ModelProjectRepo):
+    _COMPONENTS_VERSIONS_LOCATIONS = {"lib": "DEPENDS", "lib2": "DEPENDS"}
+
+
 def tag_name(build, major, minor):
     return f"build_{build}_release_{major}_{minor}_success"
 
@@ -217,7 +221,21 @@ _MATCH_MSG = ("BUG-7 fix of c{i}", "also BUG-77 c{i}", "c{i} subject\n\nbody men
 _OTHER_MSG = ("work on c{i}", "bug-7 lower case c{i}", "BUG-8 c{i}", "BUG- 7 c{i}\nBUG\n-7")
 
 
-def c06_message(i, matching):
+# search texts with regular-expression metacharacters: selection is plain substring containment. The 'matching'
+# flavours contain the text literally (some of them do not match it when it is read as a regular expression), the
+# 'other' flavours do not contain it (some of them match it as a regular expression)
+TEXT_FLAVOURS = {
+    "REL-1.5": (("REL-1.5 fix c{i}", "see REL-1.5.2 of c{i}"), ("REL-145 c{i}", "REL-1x5 and rel-1.5 c{i}")),
+    "parser (core)": (("parser (core): handle c{i}", "in parser (core) c{i}"), ("parser core: rename c{i}", "parser(core) c{i}")),
+    "a+b": (("a+b summed c{i}", "calc a+b+c c{i}"), ("aab c{i}", "ab and a b c{i}")),
+    "[x]": (("[x] done c{i}", "mark [x] c{i}"), ("x c{i}", "[ x ] c{i}")),
+}
+
+
+def c06_message(i, matching, text=None):
+    if text is not None and text != SEARCH_TEXT:
+        fl = TEXT_FLAVOURS[text][0 if matching else 1]
+        return fl[i % len(fl)].format(i=i)
     return (_MATCH_MSG if matching else _OTHER_MSG)[i % 4].format(i=i)
 
 
@@ -232,9 +250,10 @@ def c06_repo_spec(case, name="comp_1"):
     tags, match = set(case["tags"]), set(case["match"])
     dates = case.get("dates")
     step = case.get("step", 600)
+    text = case.get("text")
     commits = []
     for i, ps in enumerate(case["parents"], start=1):
-        commits.append([i, list(ps), c06_message(i, i in match), [c06_tag(i)] if i in tags else [], {}]
+        commits.append([i, list(ps), c06_message(i, i in match, text), [c06_tag(i)] if i in tags else [], {}]
                        + ([dates[i - 1] * step] if dates else []))
     return {"name": name, "commits": commits, "branches": [list(b) for b in case["heads"]]}
 
@@ -616,13 +635,16 @@ def c07_parent_tag_label(c):
     return f"5.0.{c}"
 
 
-def c07_parent_spec(par, comp, name="app"):
+def c07_parent_spec(par, comp, name="app", comp2=None):
     """par = {"parents": [...], "heads": [...], "tags": [ids], "match": [ids], "pins": [component commit id per commit]}"""
     tags, match = set(par["tags"]), set(par["match"])
     commits = []
     for i, ps in enumerate(par["parents"], start=1):
         pin = par["pins"][i - 1]
-        files = {"DEPENDS": json.dumps({"lib": pin if isinstance(pin, str) else c07_version(comp, pin)})}
+        deps = {"lib": pin if isinstance(pin, str) else c07_version(comp, pin)}
+        if comp2 is not None:
+            deps["lib2"] = c07_version(comp2, par["pins2"][i - 1])
+        files = {"DEPENDS": json.dumps(deps)}
         commits.append([i, list(ps), c06_message(i, i in match), [tag_name(i, 5, 0)] if i in tags else [], files]
                        + ([par["levels"][i - 1] * C07_LEVEL + C07_PARENT_SHIFT] if par.get("levels") else []))
     return {"name": name, "commits": commits, "branches": [list(b) for b in par["heads"]]}
@@ -757,6 +779,13 @@ def two_repo_collection(comp_spec, par_spec, order=("app", "lib")):
     lib = ModelProjectRepo("lib", FakeRepo(comp_spec), "origin")
     app = ParentProjectRepo("app", FakeRepo(par_spec), "origin")
     repos = {"app": app, "lib": lib}
+    return ghist.ReposCollection({k: repos[k] for k in order})
+
+
+def three_repo_collection(comp_spec, comp2_spec, par_spec, order=("app", "lib", "lib2")):
+    repos = {"lib": ModelProjectRepo("lib", FakeRepo(comp_spec), "origin"),
+             "lib2": ModelProjectRepo("lib2", FakeRepo(comp2_spec), "origin"),
+             "app": ParentProjectRepo2("app", FakeRepo(par_spec), "origin")}
     return ghist.ReposCollection({k: repos[k] for k in order})
 
 
